@@ -1243,6 +1243,50 @@ func (g *c12gen) compaction(nkeys int) {
 	}
 }
 
+// l0hull: a level-1 table X to the right, then two level-0 tables: A ends in front of X, B starts
+// inside A's range and reaches INTO X (overwrites / deletes keys of X). The level-0 compaction
+// must take the range from A's first key to B's last key: X is an input. (A hull that grows only
+// when a table STARTS beyond it stops at A's last key and leaves X out.)
+func (g *c12gen) l0hull(id string) {
+	w, r := g.w, g.r
+	fmt.Fprintf(w, "case %s memsize=100000 maxmem=8 ratio=1000000 sstmax=1000000\n", id)
+	key := func(i int) string { return fmt.Sprintf("%02x", 0x61+i) } // a..z
+	table := func(ks []int, dels map[int]bool) {
+		sort.Ints(ks)
+		for _, i := range ks {
+			if dels[i] {
+				fmt.Fprintf(w, "del %s\n", key(i))
+			} else {
+				fmt.Fprintf(w, "put %s %s\n", key(i), g.val())
+			}
+		}
+		fmt.Fprintf(w, "full\nretire\n")
+	}
+	xlo := 12 + r.Intn(5) // first key of X
+	xhi := xlo + 3 + r.Intn(5)
+	table([]int{xlo, xlo + 1}, nil)
+	table([]int{xlo + 2, xhi}, nil)
+	fmt.Fprintf(w, "trigger\n") // X = [xlo..xhi] on level 1
+	alo := r.Intn(3)
+	ahi := alo + 2 + r.Intn(xlo-alo-3) // A ends in front of X
+	table([]int{alo, alo + 1, ahi}, nil)
+	blo := alo + 1 + r.Intn(ahi-alo) // B starts inside A's range ...
+	dels := map[int]bool{xlo + 1: r.Intn(2) == 0}
+	table([]int{blo, xlo, xlo + 1}, dels) // ... and rewrites the first keys of X
+	fmt.Fprintf(w, "trigger\n")
+	if r.Intn(2) == 0 {
+		// a later round over the far end of X only
+		table([]int{xhi, xhi + 1}, nil)
+		table([]int{xhi + 1, xhi + 2}, nil)
+		fmt.Fprintf(w, "trigger\n")
+	}
+	fmt.Fprintf(w, "retire\nreopen\n")
+	for _, i := range []int{alo, blo, ahi, xlo, xlo + 1, xlo + 2, xhi} {
+		fmt.Fprintf(w, "get %s\n", key(i))
+	}
+	fmt.Fprintf(w, "end\n")
+}
+
 // staggered: several level-0 tables from separate sessions (a retire-reopen empties the memtables,
 // so each table holds only its session's keys) with key ranges of different lengths, newer tables
 // overwriting/deleting keys of older ones; then range compactions over a narrow range at the low
@@ -1471,6 +1515,10 @@ func genC12(w *bufio.Writer, seed int64, n int, tier string) {
 		}
 		if ci%16 == 13 {
 			g.faultCycle(fmt.Sprintf("c12-%d-%d", seed, ci))
+			continue
+		}
+		if ci%16 == 3 {
+			g.l0hull(fmt.Sprintf("c12-%d-%d", seed, ci))
 			continue
 		}
 		if ci%4 == 2 {
